@@ -30,7 +30,7 @@ ASSUMPTIONS = [
     "UTF-16/32 and other non-ASCII-compatible codecs are not valid Python source encodings and are outside the domain",
     "newline convention is consistent within a file; in-memory text is LF-normalised (rope's documented representation)",
 ]
-BUDGET = {"quick": (4000, 200), "thorough": (60000, 2400)}
+BUDGET = {"quick": (20000, 200), "thorough": (120000, 2400)}
 
 CODECS = ["utf-8", "latin-1", "cp1252", "iso-8859-15", "cp437", "shift_jis", "euc-jp", "koi8-r", "cp1251", "gbk", "big5", "euc-kr", "iso-8859-2", "cp850", "mac-roman", "ascii"]
 COOKIE_STYLES = ["# -*- coding: %s -*-", "# coding=%s", "# vim: set fileencoding=%s :", "#!/usr/bin/python\n# -*- coding: %s -*-", "  # coding: %s"]
@@ -247,6 +247,37 @@ def _evaluate(case, env, out):
         back = project.get_file("n.py").read()
         if back != wtext:
             out.violation("C16:write_read_back", "wrote %r read %r" % (wtext[:80], back[:80]))
+        # (5) the file's newline convention is converted OUTSIDE rope between two uses of the same File object: the next
+        #     edit through that object must keep the convention the file has now, not the one it had at the first read
+        if len(lines) >= 2 and not (case["declared"] == "bom"):
+            first = res.read()
+            for other_nl in [n for n in ("\n", "\r\n", "\r") if n != case["nl"]]:
+                ocase = dict(case)
+                ocase["nl"] = other_nl
+                converted = build_bytes(lines, ocase)
+                with open(fp, "wb") as fh:
+                    fh.write(converted)
+                now = res.read()
+                k = next((i for i in range(len(lines)) if i not in cookie_idx), None)
+                if now != first or k is None:
+                    break
+                new_lines = list(lines)
+                new_lines[k] = case["repl"].replace("coding", "c_ding")
+                new_tl = now.split("\n")
+                new_tl[k] = new_lines[k]
+                project.do(ch.ChangeContents(res, "\n".join(new_tl)))
+                out.evals += 1
+                got = _read(fp)
+                expected = build_bytes(new_lines, ocase)
+                if got != expected:
+                    out.violation("C16:edit_after_outside_newline_conversion", "%r -> %r, line %d: %s" % (case["nl"], other_nl, k, _bd(expected, got)))
+                    break
+                project.history.undo()
+                if _read(fp) != converted:
+                    out.violation("C16:undo_after_outside_newline_conversion", _bd(converted, _read(fp)))
+                    break
+            with open(fp, "wb") as fh:
+                fh.write(original)
         if nontrivial:
             out.nontrivial.add("c")
     finally:
